@@ -136,6 +136,7 @@ def run(ctx):
                         except Exception as e:
                             ctx.violation('call-raises', {**case, 'route': route}, 'a multivector', repr(e)[:200], key=f'{route}:raises:{type(e).__name__}')
     binding_pass(ctx)
+    irrational_pass(ctx)
     ctx.assumptions = ['sympy (simplify, expand, subs, printing) is the symbolic ring: that its zero test is sound is trusted',
                        'the call route evaluates Rational literals in floating point: compared with tolerance, never claimed exact']
 
@@ -191,3 +192,56 @@ def binding_pass(ctx):
             ctx.case(('binding-product', tuple(sig), name), tag='binding')
             if not same(g, {k: float(v) for k, v in e.items()}, exact=False):
                 ctx.violation('binding', {'sig': sig, 'name': name, 'route': 'product-positional'}, e, g, key='binding:product')
+
+
+def irrational_pass(ctx):
+    """norm, normalized, sqrt and exp (roots, cos/sinc): symbolic result with numbers substituted — of either sign — against
+    the same operator on float operands; compared as complex numbers to 1e-9"""
+    import sympy
+    from kingdon import MultiVector
+    rng = ctx.rng
+    for sig in ([1, 1], [1, 1, 1], [1, 1, 1, -1], [0, 1, 1], [1, -1]):
+        alg = make_algebra(sig)
+        d = alg.d
+        N = 2 ** d
+        singles = [[k] for k in range(1, N)]
+        rng.shuffle(singles)
+        vectors = [[1 << i for i in range(d)][:n] for n in (2, 3) if n <= d]
+        study = [[0, k] for k in (3 % N, N - 1) if k]
+        for op in ('norm', 'normalized', 'sqrt', 'exp'):
+            pats = {'norm': singles[:4] + vectors, 'normalized': singles[:4] + vectors, 'sqrt': study + [[0]], 'exp': singles[:5] + vectors[:1]}[op]
+            for kx in pats:
+                for signs in ([1] * len(kx), [-1] * len(kx), [rng.choice([1, -1]) for _ in kx]):
+                    part = [rng.choice(['s', 's', 'n']) for _ in kx]
+                    if all(p == 'n' for p in part):
+                        part[0] = 's'
+                    vals = [sg * Fraction(rng.randint(1, 9), rng.choice([1, 2, 4])) for sg in signs]
+                    syms = [sympy.Symbol(f't{alg.bin2canon[k][1:]}') for k in kx]
+                    xs = alg.multivector(keys=tuple(kx), values=[s if p == 's' else sympy.Rational(v.numerator, v.denominator) for p, v, s in zip(part, vals, syms)])
+                    xn = MultiVector.fromkeysvalues(alg, tuple(kx), [float(v) for v in vals])
+                    case = {'sig': sig, 'op': op, 'kx': kx, 'partition': part, 'values': [str(v) for v in vals]}
+                    try:
+                        num = {k: complex(v) for k, v in mv_vals(UN[op](xn)).items()}
+                    except Exception as e:
+                        ctx.count('irrational-numeric-raises:' + type(e).__name__)
+                        continue
+                    if any(v != v or abs(v) == float('inf') for v in num.values()):
+                        continue
+                    try:
+                        sym = UN[op](xs)
+                    except Exception as e:
+                        ctx.count('irrational-symbolic-raises:' + type(e).__name__)
+                        continue
+                    subsmap = {s: sympy.Float(float(v)) for s, v in zip(syms, vals)}
+                    ctx.case({**case, 'route': 'subs'}, tag=f'irrational:{op}')
+                    try:
+                        got = {}
+                        for k, v in mv_vals(sym).items():
+                            got[k] = complex(sympy.N(sympy.sympify(v).subs(subsmap)))
+                    except Exception as e:
+                        ctx.count('irrational-subs-raises:' + type(e).__name__)
+                        continue
+                    bad = [k for k in set(got) | set(num) if abs(got.get(k, 0) - num.get(k, 0)) > 1e-9 * max(1.0, abs(num.get(k, 0)))]
+                    if bad:
+                        ctx.violation('subs-differs', {**case, 'route': 'subs'}, {k: str(v) for k, v in num.items()}, {k: str(v) for k, v in got.items()},
+                                      key=f'subs:{op}')
